@@ -271,14 +271,23 @@ def rule_report_complete(ctx, rep, rule_id="R-REPORT-COMPLETE"):
     def ev(call):
         return "EV:report" if last_attr(call.func) == "write_report" else None
 
-    fa = FlowAnalysis(run.node, ev)
+    # the option value handed to write_report (`<args>.output`), and the statements that follow the binding of <args>:
+    # analysed under the assumption "--output was given", every successful exit must have written the report
+    wr = [c for c in walk_no_nested(run.node) if isinstance(c, ast.Call) and last_attr(c.func) == "write_report" and c.args]
+    opt = rr.expand(wr[0].args[0]) if wr else None
+    if not (isinstance(opt, ast.Attribute) and isinstance(opt.value, ast.Name)):
+        raise AnalysisError("run(): the report path handed to write_report is not an option attribute (shape not understood)")
+    holder = opt.value.id
+    idx = next((i for i, st in enumerate(run.node.body) if isinstance(st, (ast.Assign, ast.AnnAssign)) and any(isinstance(t, ast.Name) and t.id == holder for t in (st.targets if isinstance(st, ast.Assign) else [st.target]))), None)
+    if idx is None:
+        raise AnalysisError(f"run(): `{holder}` is not bound by a top-level statement")
+    fa = FlowAnalysis(run.node, ev, entry={(True, unparse(opt))}, body=run.node.body[idx + 1:])
     n0 = 0
     for ex in fa.exits:
         if ex.kind != "return" or not (isinstance(ex.value, ast.Constant) and ex.value.value == 0):
             continue
         n0 += 1
-        bad = [must for must, may in ex.state.parts if (True, "EV:report") not in must and not any((not pol) and txt.endswith(".output") for pol, txt in must)]
-        rep.check(rule_id, run.qname, run.loc(ex.node), not bad, f"return 0#{n0}",
+        rep.check(rule_id, run.qname, run.loc(ex.node), has_event(ex.state, "EV:report"), f"return 0#{n0}",
                   "run() can finish with status 0 although --output was given and no report has been written on that path")
     if n0 == 0:
         raise AnalysisError("run() has no `return 0`")
